@@ -82,7 +82,17 @@ def _normalises(fa: FA, p: str, before: int, var_defs=None) -> bool:
         if var != p or val is None:
             continue
         want = Poly.atom(("call", ("global", "len"), (("param", fa.self_name),), ())) + Poly.atom(P)
-        if term_to_poly(fa.sym.term(val, n)) != want:
+        wants = [want]
+        # len(self) spelled through the class's own __len__ ('return len(self.dataset)')
+        ln_ = fa.fi.cls.lookup("__len__") if fa.fi.cls is not None else None
+        if ln_ is not None:
+            b_ = [x_ for x_ in ln_.node.body if not (isinstance(x_, ast.Expr) and isinstance(x_.value, ast.Constant))]
+            if len(b_) == 1 and isinstance(b_[0], ast.Return) and isinstance(b_[0].value, ast.Call) and \
+                    isinstance(b_[0].value.func, ast.Name) and b_[0].value.func.id == "len" and len(b_[0].value.args) == 1 and \
+                    isinstance(b_[0].value.args[0], ast.Attribute) and isinstance(b_[0].value.args[0].value, ast.Name) and \
+                    b_[0].value.args[0].value.id == (ln_.params() or ["self"])[0]:
+                wants.append(Poly.atom(("call", ("global", "len"), (("self", b_[0].value.args[0].attr),), ())) + Poly.atom(P))
+        if term_to_poly(fa.sym.term(val, n)) not in wants:
             continue
         if ("lt", P) not in fa.conds_at(n):
             continue
@@ -680,6 +690,10 @@ def helpers(prog: Program, rep: Report, MW: ClassInfo):
             if isinstance(y, ast.Call) and isinstance(y.func, ast.Attribute) and y.func.attr == "split" \
                     and isinstance(y.func.value, (ast.Name, ast.Attribute)) and "mode" in ast.unparse(y.func.value).lower() \
                     and "mode_" not in ast.unparse(y.func.value).lower():
+                # the same tokenisation spelled out (the one separator ModeWrapper itself uses) yields the same items
+                sep_ = ast.unparse(y.args[0]) if y.args else "<whitespace>"
+                if len(allseps) == 1 and sep_ in allseps and not y.keywords and len(y.args) == 1:
+                    continue
                 offenders.append(f"{rel}:{y.lineno}")
     rep.decide(not offenders, "G9.tokeniser", MW, "who-may-split", "only mode_wrapper.py tokenises mode strings",
                f"mode strings are tokenised outside ModeWrapper at {', '.join(offenders[:4])}", clause="C01.6")
@@ -742,5 +756,9 @@ def helpers(prog: Program, rep: Report, MW: ClassInfo):
         if ga is not None:
             ga_fa = fa_of(prog, ga)
             idxs = [c for n, c in ga_fa.calls_named("get_item_index")]
+            # ... or the helper's own definition spelled out: <mode>.split(<the separator>).index(item)
+            idxs += [c for n, c in ga_fa.calls_named("index") if isinstance(c.func.value, ast.Call)
+                     and isinstance(c.func.value.func, ast.Attribute) and c.func.value.func.attr == "split"
+                     and len(c.func.value.args) == 1 and ast.unparse(c.func.value.args[0]) in allseps and len(allseps) == 1]
             rep.decide(bool(idxs), "G9.tokeniser", ga, "torch-wrapper-index", "position from ModeWrapper.get_item_index",
                        "TorchWrapper computes item positions without ModeWrapper.get_item_index", clause="C01.6", nontrivial=False)
